@@ -112,6 +112,12 @@ Example C13_dispatch_nonvacuous :
   /\ dispatch C all_on "devlog" = Called "snoopy_output_devlogoutput" /\ dispatch C all_off "noop" = Called "snoopy_output_noopoutput".
 Proof. vm_compute. repeat split. Qed.
 
+(** the registries are used only by the format expansion, the filter chain, the `output` option parser and the message dispatch,
+    through doesNameExist / callByName / dispatch only: ids never leave the registries and no data source, filter or output
+    implementation calls back into a registry (its meaning would then depend on other features' switches) *)
+Theorem C13_callers_known : forall f fn, In (f, fn) (rc_callers C) -> In (f, fn) allowed_callers.
+Proof. exact (callers_known C gen_ok). Qed.
+
 (** the executable specification evaluated on the implementation's answers accepts the model everywhere *)
 Theorem C13_model_meets_spec : forall k defined probe, spec_C13_ok C k defined probe (model_call C k defined probe) = true.
 Proof. exact (model_meets_spec C gen_ok). Qed.
@@ -188,6 +194,7 @@ Print Assumptions C13_call_by_id_own.
 Print Assumptions C13_names_NoDup.
 Print Assumptions C13_guards_match.
 Print Assumptions C13_model_meets_spec.
+Print Assumptions C13_callers_known.
 Print Assumptions C13_dispatch_is_call.
 Print Assumptions C13_dispatch_own.
 Print Assumptions C13_dispatch_off_is_unknown.
